@@ -97,6 +97,18 @@ func checkResume(r *Run, twinOuts string, spec []CrashSpec) []Violation {
 				}
 				return nil
 			})
+			if w := r.SubWins["ps/"+stuck]; stuck != "" && (w == nil || w.otherGates > 0) {
+				// not the known window (sentinel removed, then at once the submit
+				// command): the job lost its sentinel earlier, or never had a
+				// submission under way
+				n := -1
+				if w != nil {
+					n = w.otherGates
+				}
+				add("cluster-job-lost-before-submission", fmt.Sprintf("after %s the restarted pipestance never finishes: %s has a job script but no job id, no sentinel and no sign of life, and its submit command was not what followed the removal of the sentinel (%d other steps of the submitting task in between; ended as %q)",
+					desc, stuck, n, cls))
+				return out
+			}
 			if stuck != "" {
 				add("cluster-submission-interrupted-before-job-id", fmt.Sprintf("after %s the restarted pipestance never finishes: %s has a job script but no job id, no sentinel and no sign of life (ended as %q)",
 					desc, stuck, cls))
